@@ -36,7 +36,8 @@ EXHAUSTIVE_PART = "facet 'positions': all grids w,h,d in 1..3 and path graphs wi
 SYN = {
     "script": [["system"], ["t_sample"], ["time_step", "time step", "dt"], ["t_max", "tmax"],
                ["sampling_policy", "sampling policy"], ["sampling_interval", "sampling interval"],
-               ["rng_seed", "rng seed", "seed"], ["units", "units_system", "units system", "u"]],
+               ["rng_seed", "rng seed", "seed"], ["init_state_processing", "init state processing"],
+               ["units", "units_system", "units system", "u"]],
     "system": [["network", "rdnetwork"], ["space", "rdspace"], ["state"], ["chemostats"],
                ["units", "units_system", "units system", "u"]],
     "network": [["species"], ["reactions"], ["environments", "env"], ["units", "units_system", "units system", "u"]],
@@ -78,44 +79,59 @@ def script_dict(spec, extra):
     return d
 
 
+def _get(dd, kind, primary, default=None):
+    """value of a key whatever alias is used"""
+    for group in SYN[kind]:
+        if group[0] == primary:
+            for k in group:
+                if k in dd:
+                    return dd[k]
+    return default
+
+
 def levels(d):
-    """-> list of (kind, dict, depth) for every dictionary level of a script dict"""
+    """-> list of (kind, dict, depth) for every dictionary level of a script dict (alias-aware)"""
     out = [("script", d, 0)]
-    if isinstance(d.get("t_sample"), dict):
-        out.append(("unitarray", d["t_sample"], 1))
-    if isinstance(d.get("units"), dict):
-        out.append(("unitssystem", d["units"], 1))
-    sy = d["system"]
+    if isinstance(_get(d, "script", "t_sample"), dict):
+        out.append(("unitarray", _get(d, "script", "t_sample"), 1))
+    if isinstance(_get(d, "script", "units"), dict):
+        out.append(("unitssystem", _get(d, "script", "units"), 1))
+    sy = _get(d, "script", "system")
+    if not isinstance(sy, dict):
+        return out
     out.append(("system", sy, 1))
-    if isinstance(sy.get("units"), dict):
-        out.append(("unitssystem", sy["units"], 2))
-    if isinstance(sy.get("state"), dict):
-        out.append(("unitarray", sy["state"], 2))
-    net = sy["network"]
-    out.append(("network", net, 2))
-    if isinstance(net.get("units"), dict):
-        out.append(("unitssystem", net["units"], 3))
-    for s_ in net["species"]:
-        out.append(("species", s_, 3))
-        if isinstance(s_.get("units"), dict):
-            out.append(("unitssystem", s_["units"], 4))
-    for r in net["reactions"]:
-        out.append(("reaction", r, 3))
-        if isinstance(r.get("units"), dict):
-            out.append(("unitssystem", r["units"], 4))
-    sp = sy["space"]
-    out.append((sp["type"], sp, 2))
-    if isinstance(sp.get("units"), dict):
-        out.append(("unitssystem", sp["units"], 3))
-    if sp["type"] == "graph":
-        for nd in sp["nodes"]:
-            out.append(("node", nd, 3))
-            if isinstance(nd.get("units"), dict):
-                out.append(("unitssystem", nd["units"], 4))
-        for e in sp["edges"]:
-            out.append(("edge", e, 3))
-            if isinstance(e.get("units"), dict):
-                out.append(("unitssystem", e["units"], 4))
+    if isinstance(_get(sy, "system", "units"), dict):
+        out.append(("unitssystem", _get(sy, "system", "units"), 2))
+    if isinstance(_get(sy, "system", "state"), dict):
+        out.append(("unitarray", _get(sy, "system", "state"), 2))
+    net = _get(sy, "system", "network")
+    if isinstance(net, dict):
+        out.append(("network", net, 2))
+        if isinstance(_get(net, "network", "units"), dict):
+            out.append(("unitssystem", _get(net, "network", "units"), 3))
+        for s_ in _get(net, "network", "species", []):
+            out.append(("species", s_, 3))
+            if isinstance(_get(s_, "species", "units"), dict):
+                out.append(("unitssystem", _get(s_, "species", "units"), 4))
+        for r in _get(net, "network", "reactions", []):
+            out.append(("reaction", r, 3))
+            if isinstance(_get(r, "reaction", "units"), dict):
+                out.append(("unitssystem", _get(r, "reaction", "units"), 4))
+    sp = _get(sy, "system", "space")
+    if isinstance(sp, dict):
+        kind = sp.get("type", "grid")
+        out.append((kind, sp, 2))
+        if isinstance(_get(sp, kind, "units"), dict):
+            out.append(("unitssystem", _get(sp, kind, "units"), 3))
+        if kind == "graph":
+            for nd in sp["nodes"]:
+                out.append(("node", nd, 3))
+                if isinstance(_get(nd, "node", "units"), dict):
+                    out.append(("unitssystem", _get(nd, "node", "units"), 4))
+            for e in sp["edges"]:
+                out.append(("edge", e, 3))
+                if isinstance(_get(e, "edge", "units"), dict):
+                    out.append(("unitssystem", _get(e, "edge", "units"), 4))
     return out
 
 
